@@ -199,6 +199,62 @@ theorem foldl_top (ins : List In) (s : TQ) (h : Top s) : Top (ins.foldl step s) 
 theorem run_top (ins : List In) : Top (run ins) := foldl_top ins _ Top.init
 
 
+/-- a step of a foreign thread / of the API wrapper that leaves the queue's own state alone -/
+structure Quiet (s s' : TQ) : Prop where
+  timers : s'.timers = s.timers
+  active : s'.active = s.active
+  alarm : s'.alarm = s.alarm
+  readable : s'.readable = s.readable
+  armedAt : s'.armedAt = s.armedAt
+  calling : s'.calling = s.calling
+  cancelling : s'.cancelling = s.cancelling
+  running : s'.running = s.running
+  scripts : s'.scripts = s.scripts
+  numCreated : s.numCreated ≤ s'.numCreated
+  trace : s'.trace = s.trace ∨ ∃ n a q, s'.trace = .added n a q :: s.trace
+
+theorem Quiet.suffix {s s' : TQ} (h : Quiet s s') : s.trace <:+ s'.trace := by
+  rcases h.trace with h | ⟨n, a, q, h⟩ <;> rw [h]
+  · exact List.suffix_refl _
+  · exact List.suffix_cons _ _
+
+theorem Quiet.runs {s s' : TQ} (h : Quiet s s') : runRecs s'.trace = runRecs s.trace := by
+  rcases h.trace with h | ⟨n, a, q, h⟩ <;> rw [h]
+  rw [runRecs_cons]; rfl
+
+theorem Frame.quiet {s s' : TQ} (h : Frame s s') : Quiet s s' :=
+  ⟨h.timers, h.active, h.alarm, h.readable, h.armedAt, h.calling, h.cancelling, h.running, h.scripts,
+   by rw [h.numCreated], Or.inl h.trace⟩
+
+theorem addAlloc_quiet (s : TQ) (name : Nat) (m : Mode) : Quiet s (addAlloc s name m) := by
+  rcases addAlloc_spec s name m with hf | ⟨s1, a, c, h1, _, _, h4, _, _, _, h8⟩
+  · exact hf.quiet
+  · rw [h8]
+    exact ⟨h1.timers, h1.active, h1.alarm, h1.readable, h1.armedAt, h1.calling, h1.cancelling, h1.running, h1.scripts,
+      by show s.numCreated ≤ c.seq; rw [h4, h1.numCreated]; omega, Or.inl h1.trace⟩
+
+theorem addFinish_quiet (s : TQ) : Quiet s (addFinish s) := by
+  cases hp : s.parked with
+  | none => rw [addFinish_none hp]; exact (Frame.refl s).quiet
+  | some p =>
+    obtain ⟨name, a, q⟩ := p
+    rw [addFinish_some hp]
+    exact ⟨rfl, rfl, rfl, rfl, rfl, rfl, rfl, rfl, rfl, Nat.le_refl _, Or.inr ⟨name, a, q, rfl⟩⟩
+
+theorem Quiet.trans {s s' s'' : TQ} (h : Quiet s s') (h' : Quiet s' s'') (hq : s'.trace = s.trace) : Quiet s s'' :=
+  ⟨h'.timers.trans h.timers, h'.active.trans h.active, h'.alarm.trans h.alarm, h'.readable.trans h.readable,
+   h'.armedAt.trans h.armedAt, h'.calling.trans h.calling, h'.cancelling.trans h.cancelling, h'.running.trans h.running,
+   h'.scripts.trans h.scripts, Nat.le_trans h.numCreated h'.numCreated, by rw [← hq]; exact h'.trace⟩
+
+theorem addAlloc_trace (s : TQ) (name : Nat) (m : Mode) : (addAlloc s name m).trace = s.trace := by
+  rcases addAlloc_spec s name m with hf | ⟨s1, a, c, h1, _, _, h4, _, _, _, h8⟩
+  · exact hf.trace
+  · rw [h8]; exact h1.trace
+
+/-- `addTimer` on a foreign thread, joined -/
+theorem addForeign_quiet (s : TQ) (name : Nat) (m : Mode) : Quiet s (addFinish (addAlloc s name m)) :=
+  (addAlloc_quiet s name m).trans (addFinish_quiet _) (addAlloc_trace s name m)
+
 /-! ### induction principles for further invariants -/
 
 theorem wf_pop {s : TQ} {f : Functor} {r : List Functor} (h : WF s []) (hr : s.running = f :: r) :
